@@ -75,6 +75,10 @@ def str2msg(text):
         if name in msg or name == 'type':
             # (The type is already given by the first word.)
             raise ValueError(f'{name} appears more than once')
+        if name not in SPEC_BY_TYPE[type_]['attribute_names']:
+            # (Only attributes of the message can be set from text, not
+            # options of the constructor such as skip_checks.)
+            raise ValueError(f'{type_} message has no attribute {name}')
         if name == 'time':
             value = _parse_time(value)
         elif name == 'data':
